@@ -14,7 +14,8 @@ KINDS = ['flip_type', 'len_delta', 'len_zero', 'len_huge', 'truncate_node',
          'unknown_tag', 'bad_enum', 'boundary_int', 'bad_utf8', 'nest',
          'batch_count', 'version', 'async', 'drop_header', 'flip_byte',
          'random_bytes', 'outer_len_delta', 'append_garbage', 'bad_bool',
-         'pad_nonzero', 'empty_payload']
+         'pad_nonzero', 'empty_payload', 'cut_at_boundary',
+         'cut_at_boundary']
 
 
 def gen_spec(r):
@@ -85,6 +86,22 @@ def apply(frame, spec):
         return bytes(b[:4]) + struct.pack('!I', ln) + bytes(b[8:])
     if k == 'append_garbage':
         return _fix_outer(b + b'\xde\xad\xbe\xef\x00\x00\x00\x00')
+    if k == 'cut_at_boundary':
+        # the frame ends exactly where some item begins (before a payload,
+        # before a batch item, before a field), with the outer length fixed
+        # up and every inner length still announcing what is missing
+        tree = t.parse(frame)
+        starts = sorted(set(n.offset for n in tree.walk() if n.offset > 8))
+        if not starts:
+            return bytes(b)
+        cut = _pick(starts, spec['pick'])
+        if spec['pick2'] < 0.5:
+            # prefer the payload of the last batch item
+            pl = [n.offset for n in tree.walk()
+                  if n.tag == TAG['REQUEST_PAYLOAD']]
+            if pl:
+                cut = pl[-1]
+        return _fix_outer(b[:cut])
     tree = t.parse(frame)
     nodes = _nodes(tree)
     inner = [n for n in nodes if n is not tree]
